@@ -29,6 +29,10 @@ def finalise(it, obj, how):
     if how == 'close':
         r = obj.cls.lookup('close')
         return it.call_function(r[1], [], {}, self_obj=obj)
+    # a with block on the writer: the context is entered (again) and left
+    r = obj.cls.lookup('__enter__')
+    if r and r[0] == 'method':
+        it.call_function(r[1], [], {}, self_obj=obj)
     r = obj.cls.lookup('__exit__')
     return it.call_function(r[1], [none, none, none], {}, self_obj=obj)
 
